@@ -163,6 +163,39 @@ def run_property(plugin, tier, seed, replay=None, no_build=False):
                 continue
             mismatches.append((r, i, d, mobs))
 
+    # Properties that ARE a refinement statement ("the persisted state equals what the rules prescribe"): when the
+    # observation that differs is one of the state components the property names, the history of that case is a
+    # failing input - the implementation's state is not the one the proven rule model prescribes for it.
+    dv = getattr(plugin, "divergence_violation", None)
+    if mismatches and not violations and dv is not None:
+        for (r, i, d, mobs) in mismatches:
+            c = r["cases"][i]
+            why = dv(c, d)
+            if not why:
+                continue
+            small = None
+            if not getattr(plugin, "NO_MINIMISE", False):
+                try:
+                    small = V.minimise(driver, model, c, lambda x: any(dv(x["cases"][j], dd) for (j, dd, _) in x["mismatch"]))
+                except Exception:
+                    small = None
+            if small:
+                for (j, dd, mm) in small["mismatch"]:
+                    w2 = dv(small["cases"][j], dd)
+                    if w2:
+                        c, d, mobs, why = small["cases"][j], dd, mm, w2
+                        break
+            k += 1
+            c.lines.append("# model observations: " + " | ".join(mobs))
+            path = V.write_replay(pid, seed, k, c, {
+                "property": pid, "kind": "the implementation's state after this history is not the state the rule model prescribes",
+                "what": why, "run": r["tag"], "argv": " ".join(r["argv"]),
+                "first_difference": "observation %d: implementation `%s`, model `%s`" % (d[0], d[1], d[2]),
+                "replay_with": "bin/check %s --replay <this file>" % pid})
+            violations.append((path, why, False))
+            say("%s: %s" % (pid, why))
+            break
+
     # correspondence differs but the monitor is silent: search for a failing input, else report
     if mismatches and not violations:
         r, i, d, mobs = mismatches[0]
